@@ -297,3 +297,30 @@ pub fn check_main(id: &str, tier: &str) -> ! {
    }
    std::process::exit(0)
 }
+
+/// Determinism self-check (DESIGN.md §2.7): the same cases executed twice, in separate processes,
+/// once by 1 worker and once by up to 16 workers; per-case trace hashes and result digests must agree.
+pub fn selfcheck_main(checks: &[String], n_cases: u64) -> ! {
+   let seed: u64 = std::env::var("VERIF_SEED").ok().and_then(|s| s.parse().ok()).unwrap_or(1);
+   let mut total = 0u64;
+   for id in checks {
+      let mut runs = vec![];
+      for (tag, jobs) in [("a", 3usize), ("b", 16usize)] {
+         let dir = PathBuf::from(format!("/verif/work/selfcheck_{}_{}", id, tag));
+         let _ = std::fs::remove_dir_all(&dir);
+         std::fs::create_dir_all(&dir).unwrap_or_else(|e| harness_error(&format!("cannot create {}: {}", dir.display(), e)));
+         let sums = run_workers(id, "quick", seed, n_cases, jobs, &dir, 1200);
+         let mut d = merge(&sums).digests;
+         d.sort();
+         runs.push(d);
+      }
+      if runs[0] != runs[1] {
+         let diff = runs[0].iter().zip(runs[1].iter()).find(|(a, b)| a != b);
+         harness_error(&format!("determinism self-check failed for {}: first difference {:?}", id, diff));
+      }
+      total += runs[0].len() as u64;
+      println!("selfcheck {}: {} executions x 2 runs (3 vs 16 worker processes): identical trace hashes and result digests", id, runs[0].len());
+   }
+   println!("selfcheck ok: {} executions compared", total);
+   std::process::exit(0)
+}
